@@ -184,6 +184,9 @@ func main() {
 			g.Explicit = i%12 == 1
 			t := g.RandType(1 + rng.Intn(3))
 			p := topParams[rng.Intn(len(topParams))]
+			if p == "set" && g.NoSet[t] {
+				p = ""
+			}
 			if berlib.Classify(t) == berlib.KString && !strings.Contains(p, "utf8") && !strings.Contains(p, "ia5") {
 				p = strings.TrimPrefix(p+",utf8", ",")
 			}
